@@ -13,6 +13,7 @@ import (
 	"os/exec"
 	"path/filepath"
 	"sort"
+	"strconv"
 	"strings"
 	"sync"
 	"sync/atomic"
@@ -448,17 +449,71 @@ func runSolver(s SolverCfg, file string, timeoutS int) (string, string, float64)
 	return runSolverCtx(context.Background(), s, file, timeoutS)
 }
 
+// wallFactor: how much longer than its CPU budget a solver may take in wall-clock time.
+const wallFactor = 40
+
+// cpuSeconds reads the CPU time (user+system) a process has used so far from /proc.
+func cpuSeconds(pid int) (float64, bool) {
+	b, err := os.ReadFile(fmt.Sprintf("/proc/%d/stat", pid))
+	if err != nil {
+		return 0, false
+	}
+	// the command name (field 2) is parenthesised and may hold spaces: count from the last ')'
+	s := string(b)
+	i := strings.LastIndexByte(s, ')')
+	if i < 0 {
+		return 0, false
+	}
+	f := strings.Fields(s[i+1:])
+	if len(f) < 13 {
+		return 0, false
+	}
+	ut, e1 := strconv.ParseFloat(f[11], 64)
+	st, e2 := strconv.ParseFloat(f[12], 64)
+	if e1 != nil || e2 != nil {
+		return 0, false
+	}
+	return (ut + st) / 100, true // clock ticks: 100 per second on Linux
+}
+
+// runSolverCtx runs one solver on one query. The budget timeoutS is a budget of CPU TIME: the
+// solvers are single-threaded, so on an idle machine it is the wall-clock timeout it used to be,
+// but a verdict must not depend on what else runs on the machine (several checks at once, each
+// with sixteen solver processes, made honest obligations time out). The process is stopped when
+// it has used its CPU budget, or after wallFactor times as much wall-clock time.
 func runSolverCtx(parent context.Context, s SolverCfg, file string, timeoutS int) (string, string, float64) {
-	ctx, cancel := context.WithTimeout(parent, time.Duration(timeoutS+2)*time.Second)
+	ctx, cancel := context.WithTimeout(parent, time.Duration(timeoutS*wallFactor+2)*time.Second)
 	defer cancel()
-	args := s.Args(file, timeoutS)
+	args := s.Args(file, timeoutS*wallFactor)
 	cmd := exec.CommandContext(ctx, args[0], args[1:]...)
 	var out bytes.Buffer
 	cmd.Stdout = &out
 	cmd.Stderr = &out
 	t0 := time.Now()
-	_ = cmd.Run()
+	var cpuOutFlag int32
+	if err := cmd.Start(); err == nil {
+		done := make(chan struct{})
+		go func() {
+			tick := time.NewTicker(100 * time.Millisecond)
+			defer tick.Stop()
+			for {
+				select {
+				case <-done:
+					return
+				case <-tick.C:
+					if c, ok := cpuSeconds(cmd.Process.Pid); ok && c >= float64(timeoutS) {
+						atomic.StoreInt32(&cpuOutFlag, 1)
+						_ = cmd.Process.Kill()
+						return
+					}
+				}
+			}
+		}()
+		_ = cmd.Wait()
+		close(done)
+	}
 	dt := time.Since(t0).Seconds()
+	cpuOut := atomic.LoadInt32(&cpuOutFlag) == 1
 	txt := out.String()
 	first := strings.TrimSpace(strings.SplitN(txt, "\n", 2)[0])
 	res := "unknown"
@@ -467,7 +522,7 @@ func runSolverCtx(parent context.Context, s SolverCfg, file string, timeoutS int
 		res = "unsat"
 	case first == "sat":
 		res = "sat"
-	case first == "timeout" || ctx.Err() != nil:
+	case first == "timeout" || ctx.Err() != nil || cpuOut:
 		res = "timeout"
 	case strings.Contains(first, "error") || strings.HasPrefix(first, "(error"):
 		res = "error"
